@@ -44,6 +44,9 @@ PRELUDE = {"lc3": "set r1=0"}
 
 # MIPS loads relative to a base register: mnemonic, width, signed
 MIPS_LOADS = [("lbu", 1, False), ("lhu", 2, False), ("lb", 1, True), ("lh", 2, True), ("lw", 4, False)]
+# the same loads exist on RISC-V: instruction text and the command that sets the base register
+REL = {"mips": ("%s $t0, %d($t2)", "set $t2=0x%x", [-4, -8, -32768, 0, 4, 32764]),
+       "riscv": ("%s t0, %d(t2)", "set t2=0x%x", [-4, -8, -2048, 0, 4, 2044])}
 
 # load-from-memory templates (data address) for "what the simulator fetches is what write* put there"
 SIMF = {
@@ -258,10 +261,10 @@ class C19(Engine):
                 a = (base & 0x3fff) + 0x300 + rng.below(0x20) * max(align, 2) // bpa
                 if cpu == "8008":
                     a &= 0x1fff          # 14-bit program counter
-                if cpu == "mips" and rng.chance(1, 2):
+                if cpu in REL and rng.chance(1, 2):
                     mn, wd, sg = rng.pick(MIPS_LOADS)
-                    off = rng.pick([-4, -8, -32768, -2 if wd <= 2 else -4, -1 if wd == 1 else -4, 0, 4, 32764])
-                    d = (a & 0xffff0000) + 0x8000 + 4 * rng.below(64)
+                    off = rng.pick(REL[cpu][2] + [-2 if wd <= 2 else -4, -1 if wd == 1 else -4])
+                    d = (a & 0xffff0000) + 0x8000 + 4 * rng.below(64) + (rng.below(4 // wd) * wd if wd < 4 else 0)
                     plan["ops"].append({"op": "simstep", "addr": a, "imm": 0, "rel": [mn, wd, sg, off, d, list(rng.bytes(4))]})
                 elif cpu not in NO_SET_PC and rng.chance(1, 5):
                     # run into a breakpoint: the address given to break is in the same units as every other address
@@ -389,7 +392,7 @@ class C19(Engine):
                 src = ".%s\n.org 0\n  %s\n" % (cpu, tmpl % op["imm"])
                 if "rel" in op:
                     mn, wd, sg, off, d, bs = op["rel"]
-                    src = ".%s\n.org 0x%x\n  %s $t0, %d($t2)\n" % (cpu, op["addr"], mn, off)
+                    src = ".%s\n.org 0x%x\n  %s\n" % (cpu, op["addr"], REL[cpu][0] % (mn, off))
                 if "fetch" in op:
                     # position dependent (symbolic mode): assembled where it will be placed
                     src = ".%s\n.org 0x%x\n  %s\n" % (cpu, op["addr"], SIMF[cpu][op["fetch"]][0] % op["daddr"])
@@ -489,7 +492,7 @@ class C19(Engine):
                     console.append("write 0x%x %s" % (d, " ".join("0x%02x" % b for b in bs)))
                     expect.append(("write", (1, d, list(bs))))
                     touch(d * bpa, 4)
-                    console.append("set $t2=0x%x" % ((d - off) & 0xffffffff))
+                    console.append(REL[cpu][1] % ((d - off) & 0xffffffff))
                     expect.append(("none", None))
                     v = int.from_bytes(bytes(bs[:wd]), "big" if big else "little")
                     if sg and v & (1 << (8 * wd - 1)):
